@@ -32,7 +32,7 @@ def plan(tier, seed):
 
 def required(tier):
     r = {"weights-exact": 10000, "project-1d": 800, "project-nd": 50, "mask-exact": 50, "total-conserved": 50,
-            "two-stage": 30, "axis-order": 30, "folded-project": 15, "upward-refused": 10, "cache-transparent": 20,
+            "two-stage": 30, "axis-order": 30, "scale-equivariant": 30, "project-after-edit": 20, "folded-project": 15, "upward-refused": 10, "cache-transparent": 20,
             "neutral-fixed-point": 30}
     r.update({'ambient-project': 4, 'ambient-project-mask': 4, 'ambient-weights': 100})
     return r
@@ -178,6 +178,29 @@ def run(spec, rec):
                               TOL, site=site, tags=tags)
                     if same_mask_needed:
                         rec.check("two-stage-mask", np.array_equal(np.asarray(p2.mask), np.asarray(p.mask)), site=site, tags=tags)
+                # the same object projected again after it was edited in place (an entry masked, everything rescaled): the second
+                # result is the projection of what the object is now, not of what it was
+                if not folded:
+                    ed = src.copy()
+                    _ = ed.project(to)
+                    idx = tuple(int(rng.integers(0, n_ + 1)) for n_ in ns)
+                    ed.mask[idx] = True
+                    ed *= 3.0
+                    ok3, p3 = rec.noraise("project-returns", lambda: ed.project(to), site=site, tags=dict(tags, after="in-place edit"))
+                    if ok3:
+                        m_ed = np.asarray(fs.mask).copy()
+                        m_ed[idx] = True
+                        rm3 = gen.project_mask_ref(m_ed, to)
+                        rd3 = gen.project_ref(np.where(m_ed, 0.0, 3.0 * np.asarray(fs.data)), to)
+                        k3 = ~rm3
+                        rec.check("mask-exact", np.array_equal(np.asarray(p3.mask), rm3), site=site, tags=dict(tags, after="in-place edit"))
+                        rec.close("project-after-edit", relerr(p3.data[k3], rd3[k3], scale=np.max(np.abs(rd3))) if k3.any() else 0.0, TOL, site=site, tags=tags)
+                # projection is linear: a spectrum in tiny units (theta ~ 1e-9 .. 1e-12) projects to the same multiple
+                cfac = float(10.0 ** rng.uniform(-13, -8))
+                ok4, p4 = rec.noraise("project-returns", lambda: (src * cfac).project(to), site=site, tags=dict(tags, scale="tiny"))
+                if ok4:
+                    rec.close("scale-equivariant", relerr(np.asarray(p4.data)[keep], cfac * np.asarray(p.data)[keep], scale=cfac * np.max(np.abs(rd))) if keep.any() else 0.0,
+                              TOL, site=site, tags=tags)
                 # axis order: one axis at a time, in a random order
                 order = [int(a) for a in rng.permutation(ndim)]
                 cur = src
